@@ -173,10 +173,24 @@ def r2_versions(ctx) -> None:
   g2 = cfgmod.CFG(call.node)
   rd2 = flow.ReachingDefs(g2)
   okp = False
+
+  def derives_from_prior(name: str, node, depth=0, seen=None) -> bool:
+    seen = seen if seen is not None else set()
+    if name == 'prior_features':
+      return True
+    if depth > 8 or (name, node.id) in seen:
+      return False
+    seen.add((name, node.id))
+    for d in rd2.at(node, name):
+      if d.node_id >= 0 and d.value is not None:
+        dn = g2.nodes[d.node_id]
+        if any(derives_from_prior(x, dn, depth + 1, seen) for x in flow.names_in(d.value)):
+          return True
+    return False
   for n in g2.nodes:
     for c in flow.node_calls(n):
-      if dotted(c.func) == 'eval_score_fn' and c.args and isinstance(c.args[0], ast.Name) and c.args[0].id == 'prior_features':
-        ds = rd2.at(n, 'prior_features')
+      if dotted(c.func) == 'eval_score_fn' and c.args and isinstance(c.args[0], ast.Name) and derives_from_prior(c.args[0].id, n):
+        ds = rd2.at(n, c.args[0].id)
         okp = all(d.value is not None and 'dimension_is_missing' in unparse(d.value, 0) for d in ds if d.kind == 'assign') and bool(ds)
   ctx.check(okp, 'R2', 'prior features are masked before they are scored', call.node, 'prior_rewards = eval_score_fn(masked prior_features)',
             'prior features are scored before the padding mask (padding leaks into the prior rewards)', construct='prior-mask', func=call.qualname)
@@ -500,18 +514,41 @@ def r4_keys(ctx) -> None:
   split = next((x for x in ast.walk(step) if isinstance(x, ast.Assign) and isinstance(x.value, ast.Call)
                 and dotted(x.value.func) == 'jax.random.split'), None)
   okc = False
-  if len(ret) == 1 and isinstance(ret[0].value, ast.Tuple) and split is not None:
-    last = ret[0].value.elts[-1]
+
+  def components(v: ast.AST):
+    """(constructor name or 'tuple', {slot: expression}) of a carry value: a tuple or a record constructor call."""
+    if isinstance(v, ast.Tuple):
+      return 'tuple', {i_: e_ for i_, e_ in enumerate(v.elts)}
+    if isinstance(v, ast.Call) and isinstance(v.func, ast.Name) and not any(isinstance(a_, ast.Starred) for a_ in v.args):
+      out = {i_: e_ for i_, e_ in enumerate(v.args)}
+      out.update({k_.arg: k_.value for k_ in v.keywords if k_.arg})
+      return v.func.id, out
+    return None, {}
+  key_slot = None
+  ctor = None
+  if len(ret) == 1 and split is not None:
+    ctor, comps = components(ret[0].value)
     produced = [n for n, _ in flow.target_names(split.targets[0])]
-    used_elsewhere = [n for n in ast.walk(step) if isinstance(n, ast.Name) and isinstance(last, ast.Name) and n.id == last.id
-                      and isinstance(n.ctx, ast.Load) and n is not last]
-    okc = isinstance(last, ast.Name) and last.id in produced and not used_elsewhere and len(set(produced)) == len(produced)
-  init = next((x for x in ast.walk(call.node) if isinstance(x, ast.Assign) and isinstance(x.targets[0], ast.Name)
-               and x.targets[0].id == 'init_args' and isinstance(x.value, ast.Tuple)), None)
-  oki = init is not None and isinstance(init.value.elts[-1], ast.Name) and any(
-      isinstance(x, ast.Assign) and isinstance(x.value, ast.Call) and dotted(x.value.func) == 'jax.random.split'
-      and x.value.args and isinstance(x.value.args[0], ast.Name) and x.value.args[0].id == 'seed'
-      and init.value.elts[-1].id in [n for n, _ in flow.target_names(x.targets[0])] for x in call.node.body)
+    slots = [k_ for k_, e_ in comps.items() if isinstance(e_, ast.Name) and e_.id in produced]
+    if len(slots) == 1:
+      key_slot = slots[0]
+      last = comps[key_slot]
+      used_elsewhere = [n for n in ast.walk(step) if isinstance(n, ast.Name) and n.id == last.id
+                        and isinstance(n.ctx, ast.Load) and n is not last]
+      okc = not used_elsewhere and len(set(produced)) == len(produced)
+  oki = False
+  if key_slot is not None:
+    seed_splits = [x for x in call.node.body if isinstance(x, ast.Assign) and isinstance(x.value, ast.Call)
+                   and dotted(x.value.func) == 'jax.random.split' and x.value.args and isinstance(x.value.args[0], ast.Name)
+                   and x.value.args[0].id == 'seed']
+    seed_keys = {n for x in seed_splits for n, _ in flow.target_names(x.targets[0])}
+    for x in call.node.body:
+      if isinstance(x, ast.Assign) and isinstance(x.targets[0], ast.Name):
+        c2, comps2 = components(x.value)
+        if c2 == ctor and key_slot in comps2 and len(comps2) >= 2 and (c2 != 'tuple' or len(comps2) == len(comps)):
+          e_ = comps2[key_slot]
+          if isinstance(e_, ast.Name) and e_.id in seed_keys:
+            oki = True
   ctx.check(okc and oki, 'R4', 'optimisation loop carries a fresh split of the key to the next step', step,
             'return (.., new_seed) with new_seed from split(seed) and not otherwise consumed; carry initialised from split(seed)',
             'the key carried to the next step is not a fresh, otherwise unused split of the current key (steps repeat or correlate draws), '
